@@ -21,7 +21,7 @@ fn seeds() -> Vec<(String, Vec<u8>)> {
     for (name, font) in vf_fuzz::small_fonts(64 * 1024) {
         let real = RealArgs::of(&font);
         for (tag, payload) in vf_core::gen::split_tables(&font) {
-            if payload.is_empty() || payload.len() > 16 * 1024 {
+            if payload.is_empty() || payload.len() > 8 * 1024 {
                 continue;
             }
             let ti = TAGS.iter().position(|t| **t == tag).filter(|i| *i < 4).unwrap_or(4) as u8;
@@ -52,7 +52,7 @@ fn run(data: &[u8]) {
         axis_count: (sel[2] & 3) as u16,
         is_long: sel[2] & 4 != 0,
     };
-    let cfg = WalkCfg::mutant(40_000, None);
+    let cfg = WalkCfg::mutant(20_000, None);
     let r = if &tag == b"scan" { vf_core::guard(|| scan_payload(payload, 64, &real, &cfg)) } else { vf_core::guard(|| walk_payload(payload, tag, &real, cross, &cfg)) };
     let obs = match r {
         Ok(o) => o,
